@@ -226,6 +226,10 @@ func (bs batchsim) runInBubble(c *Case, dir string, out *Outcome) {
 	out.Interleaved = []uint64{s.Fingerprint()}
 	out.Trace = s.Trace
 	out.probe("preemptions", s.Preempts)
+	for k, v := range s.Points {
+		out.probe(k, v)
+	}
+	out.probe("goroutines-adopted-at-ordinary-hooks", s.Adopted)
 	out.probe("time-advances", s.TimeAdv)
 	if s.TimeAdv > 0 {
 		out.fault("timer-fired/clock-advanced", s.TimeAdv)
